@@ -1483,6 +1483,7 @@ func planC10(tier string, seed int64) (*Plan, error) {
 		{"![a](XX)", 5, 2}, {"a  \nXX", 4, 2}, {"a\\\nXX", 3, 2}, {"a\nXX\nc", 2, 2}, {"***\nXX", 4, 2}, {"- [ ] XX\n- [x] b", 6, 2}, {"a[^1]\n\n[^1]: XX", 14, 2},
 		{"| a | b |\n|:-|-:|\n| XX | d |", 20, 2}, {"<b>XX</b>", 3, 2}, {"<div>\nXX\n</div>", 6, 2}, {"<br/>XX<hr />", 5, 2}, {"[a](javascript:XX)", 15, 2}, {"![a](vbscript:XX)", 14, 2}, {"<javascript:XX>", 12, 2},
 		{"[a](<XXb>)", 5, 2}, {"[a](<bXX>)", 6, 2}, {"![a](<XXb> \"t\")", 6, 2}, {"[a]: <bXX>\n\n[a]", 6, 2}, {"[a](&#32;XX)", 10, 2}, {"[a](b 'XX')", 7, 2},
+		{"[a](javascript:a \"tXX\")", 19, 2}, {"![a](vbscript:b 'XX')", 17, 2}, {"[a]: file:x \"XX\"\n\n[a]", 13, 2}, {"[a](javascript:XX \"t\")", 15, 2}, {"[a](data:text/html,XX (t))", 19, 2},
 		{"t\n: XX\n  b", 5, 2}, {"`a\nXX`", 3, 2}, {"![a\nXX](u)", 4, 2}, {"> a\nXX", 4, 2}, {"\"a\"\nXX--", 4, 2}, {"~~a\nXX~~", 4, 2}, {"<!-- XX -->", 5, 2}, {"<a href=\"XX\">", 9, 2},
 	}
 	for _, t := range voids {
